@@ -190,7 +190,7 @@ func stopScenarios(hist string, full bool) []e1.Scenario {
 				if k == 0 && fin == "eof" {
 					// the identity of the consumer's error must not matter: context errors
 					// of the consumer's OWN context, values the connection layer uses itself
-					for _, w := range []string{"canceled", "deadline", "eof", "badconn", "invalidconn"} {
+					for _, w := range []string{"canceled", "deadline", "eof", "badconn", "invalidconn", "temporary"} {
 						sc := base(fmt.Sprintf("%s/%s/handler-fail@%d-%s/%s", hist, pacing, k, w, fin), hist, pacing)
 						a := att(simmaster.Plan{At: -1, Final: fin})
 						a.FailAt, a.FailWith = k, w
@@ -737,6 +737,16 @@ func handshakeJobs(thorough bool) []Job {
 		sc.ServerID = 1 << 31
 		jobs = append(jobs, Job{Sc: sc, Bound: bound})
 	}
+	// the history with every kind of commit unit: the handler refuses the k-th
+	// delivery (or the context ends inside it), then a second attempt (what the
+	// second handshake announces after a refused autocommit statement, a refused
+	// unit with a SAVEPOINT, ...)
+	for _, sc := range retryScenarios("H4", false) {
+		if strings.Contains(sc.Name, "handler-fail@") || strings.Contains(sc.Name, "cancel-handler_") {
+			sc.ServerID = 9
+			jobs = append(jobs, Job{Sc: sc, Bound: bound})
+		}
+	}
 	for _, pacing := range []string{"first", "lock"} {
 		sc := base("H2/"+pacing+"/clean-then-clean", "H2", pacing)
 		sc.Attempts = []e1.Attempt{clean(), clean()}
@@ -767,6 +777,20 @@ func aliasJobs(thorough bool) []Job {
 		a := att(simmaster.Plan{At: 9, Kind: "fin", Final: "silent"})
 		sc.Attempts = []e1.Attempt{a, clean()}
 		jobs = append(jobs, Job{Sc: sc, Bound: bound})
+		// a consumer that works on the transaction in place and then refuses it
+		// (plain error / a timeout of its sink), then a second attempt: what the
+		// second attempt delivers is decoded afresh
+		for k := 0; k < 3; k++ {
+			for _, w := range []string{"", "temporary"} {
+				sc := base(fmt.Sprintf("H8/%s/scribble-refuse@%d%s/retry", pacing, k, w), "H8", pacing)
+				a := att(simmaster.Plan{At: -1, Final: "silent"})
+				a.HandlerMode, a.FailAt, a.FailWith = "scribble", k, w
+				c := clean()
+				c.HandlerMode = "scribble"
+				sc.Attempts = []e1.Attempt{a, c}
+				jobs = append(jobs, Job{Sc: sc, Bound: bound})
+			}
+		}
 		for _, mode := range []string{"ok", "scribble"} {
 			// a rotation right behind a delivered transaction (labels must not change)
 			sc := base(fmt.Sprintf("H2/%s/%s", pacing, mode), "H2", pacing)
